@@ -38,6 +38,9 @@ extern struct memio_strm memio_strms[MEMIO_NSTRM];
 extern struct memio_wlog memio_log[MEMIO_LOGN];
 extern long memio_ncalls, memio_nwrites, memio_nlog, memio_fail_at, memio_short_amount;
 extern int  memio_sticky, memio_any_failed, memio_ro_write_attempt, memio_overflow, memio_sparse;
+extern const char *memio_failed_kind;
+extern long        memio_failed_pos;
+extern int         memio_phase, memio_failed_phase, memio_failed_code;
 int  memio_lookup(const char *path);
 void memio_reset(void);
 void memio_copy_file(int dst, int src, const char *dstname);
